@@ -51,7 +51,7 @@ def token_class(x: G) -> str:
             kinds.add('q' + t.a['quote'])
         elif t.kind == 'word':
             cs = t.a['init'] | t.a['body']
-            kinds.add('digits' if cs <= frozenset('0123456789') else ('word' if cs <= IDENT_CHARS else 'freeword'))
+            kinds.add('digits' if cs <= frozenset('0123456789') else ('word' if all(('a' + c).isidentifier() for c in cs) else 'freeword'))
         elif t.kind == 'lit':
             kinds.add('lit' + t.a['text'])
         else:
